@@ -518,18 +518,6 @@ func runHistory(hs *histSpec) ([]histScan, error) {
 		w.pods.pods = es.Pods
 		w.nodes.nodes = es.Nodes
 		ok, why := h.marginsOK(es, margin)
-		if !genInclude("oom_untaint_capacity") {
-			risky := false
-			for _, g := range es.Groups {
-				if roughScaleUpDelta(es, g) > 5e6 {
-					risky = true
-				}
-			}
-			if risky { // running this scan would kill the process (see excludedShape): the history ends here
-				out = append(out, histScan{Spec: es, Skipped: "excluded: oom_untaint_capacity"})
-				break
-			}
-		}
 		obs := w.scanOnce(false)
 		hsn := histScan{Spec: es, Obs: obs}
 		if !ok {
